@@ -71,10 +71,16 @@ func parseTime(in string) (time.Time, error) {
 		var val, i int
 		var c rune
 		var mult int = 1e9
+		if len(remaining) == 0 {
+			return time.Time{}, fmt.Errorf("too short to contain fractional seconds")
+		}
 		for i, c = range remaining {
 			if c >= '0' && c <= '9' {
-				val = val*10 + int(c-'0')
-				mult /= 10
+				// like time.Parse, digits beyond nanosecond precision are ignored
+				if mult > 1 {
+					val = val*10 + int(c-'0')
+					mult /= 10
+				}
 			} else {
 				i -= 1
 				break
